@@ -446,3 +446,148 @@ def short(ev):
         else:
             out.append('error ' + str(e[1][1]))
     return out
+
+
+# ----------------------------------------------------------------------------- C11
+# base messages: (device, [unit...]); unit = (absolute?, [declared mnemonics], query?, [argument literals])
+LEX_BASE = [
+    ('T2', [(False, ['ABc', 'DeF'], False, [])]),
+    ('T2', [(False, ['X', 'Y'], True, [])]),
+    ('T2', [(False, ['Y'], False, [])]),
+    ('T2', [(False, ['TeST', 'A'], True, [])]),
+    ('T2', [(False, ['Gh1_', 'I2'], False, [b'5'])]),
+    ('T2', [(False, ['OPT', 'INNer', 'LEAF'], True, [])]),
+    ('T2', [(False, ['INNer', 'LEAF'], True, [])]),
+    ('T2', [(False, ['*IDN'], True, [])]),
+    ('T2', [(False, ['*RST'], False, [])]),
+    ('T2', [(False, ['SYSTem', 'VALue'], True, [])]),
+    ('T2', [(False, ['ABc', 'DeF'], False, []), (True, ['TeST', 'A'], True, [])]),
+    ('T2', [(False, ['SYSTem', 'VALue'], True, []), (False, ['*RST'], False, []), (True, ['X', 'Y'], False, [])]),
+    ('TY', [(False, ['N2'], False, [b'1', b'-2'])]),
+    ('TY', [(False, ['N3'], False, [b'1', b'ON', b'"z"'])]),
+    ('TY', [(False, ['MIX'], True, [b'-5', b'#12ab', b'OFF'])]),
+    ('TY', [(False, ['PF64'], False, [b'1.5E+3'])]),
+    ('TY', [(False, ['PST'], False, [b"'a b'"])]),
+    ('T1', [(False, ['A', 'B'], False, []), (False, ['C'], False, [])]),
+    ('T1', [(False, ['A', 'X', 'C'], False, []), (False, ['Q'], True, [])]),
+    ('T3', [(False, ['SYSTem', 'ERRor', 'NEXT'], True, [])]),
+    ('T3', [(False, ['SYSTem', 'ERRor'], True, []), (False, ['SYSTem', 'ERRor', 'COUNt'], True, [])]),
+    ('T3', [(False, ['SYSTem', 'VERSion'], True, [])]),
+]
+
+
+class LexCheck:
+    """C11: case, short/long forms, white space and CR LF do not change the meaning"""
+
+    def __init__(s, world, params):
+        s.w, s.ex = world, world.ex
+        s.idx = params['msg']
+        s.dev, s.units = LEX_BASE[s.idx]
+        s.max_ws = params.get('max_ws', 2)
+        s.total_ws = params.get('total_ws', 2)      # extra white-space bytes per message, over all slots
+        s.twin = params.get('twin', False)
+
+    def ws(s, name, lo):
+        """lo.. symbolic white-space bytes in this slot, limited by what is left of the message's total budget"""
+        ex = s.ex
+        from ..natives import in_range, Or
+        hi = max(lo, min(s.max_ws, lo + s.budget))
+        n = ex.decide([(i, True) for i in range(lo, hi + 1)]) if hi > lo else lo
+        s.budget -= (n - lo)
+        out = []
+        for i in range(n):
+            b = z3.BitVec(f'w_{name}_{i}', 8)
+            ex.solver.add(Or(in_range(b, 0, 9), in_range(b, 11, 32)))
+            out.append(b)
+        return out
+
+    def mnemonic(s, name, decl):
+        ex = s.ex
+        star = decl.startswith('*')
+        d = decl[1:] if star else decl
+        short = ''.join(c for c in d if not c.islower())
+        long = d.upper()
+        form = long
+        if short != long and ex.decide([(0, True), (1, True)]) == 1:
+            form = short
+        out = [42] if star else []
+        for i, c in enumerate(form):
+            if c.isalpha():
+                b = z3.BitVec(f'c_{name}_{i}', 8)
+                ex.solver.add(z3.Or(b == ord(c.upper()), b == ord(c.lower())))
+                out.append(b)
+            else:
+                out.append(ord(c))
+        return out
+
+    def canonical(s):
+        msg = []
+        for ui, (ab, parts, q, args) in enumerate(s.units):
+            if ui:
+                msg.append(59)
+            if ab:
+                msg.append(58)
+            msg += list(':'.join(p.upper() for p in parts).encode())
+            if q:
+                msg.append(63)
+            if args:
+                msg += [32] + list(b','.join(args))
+        msg.append(10)
+        return msg
+
+    def body(s):
+        ex, w = s.ex, s.w
+        from .process_level import observation, sym_equal
+        msg = []
+        s.budget = s.total_ws
+        for ui, (ab, parts, q, args) in enumerate(s.units):
+            if ui:
+                msg.append(59)
+            msg += s.ws(f'u{ui}a', 0)
+            if ab:
+                msg.append(58)
+            for pi, p in enumerate(parts):
+                if pi:
+                    msg.append(58)
+                msg += s.mnemonic(f'u{ui}p{pi}', p)
+            if q:
+                msg.append(63)
+            if args:
+                msg += s.ws(f'u{ui}h', 1)
+                for ai, a in enumerate(args):
+                    if ai:
+                        msg += s.ws(f'u{ui}c{ai}a', 0) + [44] + s.ws(f'u{ui}c{ai}b', 0)
+                    msg += list(a)
+            msg += s.ws(f'u{ui}z', 0)
+        if ex.decide([(0, True), (1, True)]) == 1:
+            msg.append(13)
+        msg.append(10)
+        s.msg = msg
+        dev, out, _ = execute(w, s.dev, 'run', msg, cap=None)
+        dev0, out0, _ = execute(w, s.dev, 'run', s.canonical(), cap=None)
+        a, b = observation(dev, out), observation(dev0, out0)
+        if s.twin:
+            b = (b[0] + (('call', 99, ()),),) + b[1:]
+        if not b[0] and not out0 and not s.twin:
+            raise Unsupported('canonical spelling of a base message did nothing')
+        eq, m = sym_equal(ex, a, b)
+        return {'viol': None if eq else ('variant and canonical spelling behave differently', m), 'canon_calls': len([e for e in b[0] if e[0] == 'call'])}
+
+    def on_leaf(s, out):
+        ex = s.ex
+        rec = {'kind': out[0], 'msg': s.idx}
+        if out[0] == 'ok':
+            v = out[1]['viol']
+            rec['canon_calls'] = out[1]['canon_calls']
+            rule = 'LEX'
+        else:
+            v = (out[1], None)
+            rule = out[0].upper()
+        if v:
+            m = v[1] if v[1] is not None else ex.path_model()
+            wit = model_bytes(m, s.msg)
+            rec['violations'] = [{'rule': rule, 'what': f'{v[0]}: {bytes_repr(wit)} vs {bytes_repr(bytes(s.canonical()))} on {s.dev}', 'input': wit.hex(), 'canonical': bytes(s.canonical()).hex(),
+                                  'device': s.dev, 'role': f'{rule}:msg{s.idx}'}]
+        if hash(tuple(map(str, ex.decisions))) % 101 == 0:
+            rec['sample'] = {'variant': bytes_repr(model_bytes(ex.path_model(), s.msg)), 'canonical': bytes_repr(bytes(s.canonical()))}
+        return rec
